@@ -62,7 +62,7 @@ ErrCount(t) == LET ii == Kids(t, 0, "isa") IN SumSeq([k \in 1..Len(ii) |-> IsaEr
 (* ---- mutators ---- *)
 SetCursor(t, k, i) == [t EXCEPT !.segk = k, !.segi = i, !.seg_added = TRUE]
 AddIsaLoop(t, c) == LET n == [Node("isa", 0, "children") EXCEPT !.id = c.id, !.x = c.x, !.info = c.info]
-                        t1 == [t EXCEPT !.nodes = Append(@, n), !.isa = Len(t.nodes) + 1, !.gs = 0, !.st = 0] IN SetCursor(t1, "isa", t1.isa)   \* a new interchange has no current group or set
+                        t1 == [t EXCEPT !.nodes = Append(@, n), !.isa = Len(t.nodes) + 1, !.st = 0] IN SetCursor(t1, "isa", t1.isa)   \* a new interchange has no current set (the group seen last is kept for the visitors)
 AddGsLoop(t, c) == IF t.isa = 0 THEN Crash(t) ELSE
                    LET n == [Node("gs", t.isa, "children") EXCEPT !.id = c.id, !.kind = c.kind, !.x = c.x, !.info = c.info]
                        t1 == [t EXCEPT !.nodes = Append(@, n), !.gs = Len(t.nodes) + 1, !.st = 0] IN SetCursor(t1, "gs", t1.gs)            \* a new group has no current set
